@@ -1162,3 +1162,26 @@ func (g *EG) tparts(depth, tdepth int) []ast.TPart {
 	}
 	return parts
 }
+
+// TraversalExpr draws a traversal-shaped expression: a scope access path, possibly
+// extended by a step that fails (missing attribute, out-of-range index), or an
+// undefined root.
+func (g *EG) TraversalExpr() ast.Node {
+	if len(g.paths) == 0 || g.chance(12, "undefroot") {
+		return ast.GetAttr{Obj: ast.Var{Name: "undefined_var"}, Name: "a"}
+	}
+	p := g.paths[g.intn(len(g.paths)-1, "travpath")]
+	n := p.node
+	extra := g.intn(5, "travextra")
+	switch extra {
+	case 0:
+		n = ast.GetAttr{Obj: n, Name: rapid.SampledFrom(AttrNames).Draw(g.t, "attr")}
+	case 1:
+		n = ast.Index{Coll: n, Key: ast.Num{Text: rapid.SampledFrom([]string{"0", "1", "7", "1.5"}).Draw(g.t, "idx")}}
+	case 2:
+		n = ast.Index{Coll: n, Key: strLit(rapid.SampledFrom(KeyPool).Draw(g.t, "key"))}
+	case 3:
+		n = ast.LegacyIndex{Coll: n, N: g.intn(2, "lidx")}
+	}
+	return n
+}
